@@ -154,6 +154,7 @@ func (g *vGateWorld) applyGateCred(q *vReq, cred map[string]interface{}) {
 func (g *vGateWorld) probe(c map[string]interface{}, idx int) map[string]interface{} {
 	w := g.w
 	xvar := ""
+	dirNote := ""
 	g.reset()
 	op := vStr(c, "op")
 	cred := vMap(c, "cred")
@@ -293,6 +294,17 @@ func (g *vGateWorld) probe(c map[string]interface{}, idx int) map[string]interfa
 	if info := w.parseIssued(r.Body); info.Kind != "none" && info.SignedByUs {
 		effects["signed"] = true
 	}
+	if op == "rolecert_human" || op == "rolecert_auto" {
+		// the same request once more with a user directory that is configured but does not answer: whether the
+		// identity is an automation user must not be waved through (for "svc", configured by name, nothing changes)
+		w.st.Config.UserInfo.Ldap.LDAPTargetURLs = "ldaps://127.0.0.1:1"
+		r2 := w.Do(q)
+		w.st.Config.UserInfo.Ldap.LDAPTargetURLs = ""
+		if info := w.parseIssued(r2.Body); info.Kind != "none" && info.SignedByUs && op == "rolecert_human" {
+			effects["signed"] = true
+			dirNote = "signed-while-directory-down"
+		}
+	}
 	if w.signedTokens(r) > 0 {
 		effects["signed"] = true
 	}
@@ -319,7 +331,7 @@ func (g *vGateWorld) probe(c map[string]interface{}, idx int) map[string]interfa
 	if id == "" || id == "-" {
 		id = "none"
 	}
-	return map[string]interface{}{"effects": el, "identity": id, "panic": r.Panic != "", "class": r.Class(), "status": r.Status, "xvar": xvar}
+	return map[string]interface{}{"effects": el, "identity": id, "panic": r.Panic != "", "class": r.Class(), "status": r.Status, "xvar": xvar, "dirnote": dirNote}
 }
 
 // the ways a request can come from another site (C06: all of them must be refused state changes)
